@@ -36,9 +36,13 @@ def rule_declarations(ctx):
             seq_.append(("write", norm(item[1].split("(")[1].split(",")[0] if item[1].startswith("tff(") else item[1]), loops, conds, item))
         else:
             seq_.append(("emit", item[1], loops, conds, item))
-    kinds = [s[1] for i_, s in enumerate(seq_) if i_ == 0 or seq_[i_ - 1][1] != s[1]]      # one kind written by two writes (p/0, p/n) is one step
+    # one step per kind of line: a line written in several pieces (a declaration whose type comes from a table with its own printer) and a
+    # kind written by two writes (p/0, p/n) are one step each
+    steps_ = [s for i_, s in enumerate(seq_) if s[0] == "emit" or s[4][1].startswith("tff(") or i_ == 0]
+    kinds = [s[1] for i_, s in enumerate(steps_) if i_ == 0 or steps_[i_ - 1][1] != s[1]]
     ref_order = ["{}", "predicate_{}", "type_symbol_{}", "type_function_constant_{}", "symbol_order_{}", "Display::fmt"]
-    ctx.add("DECL", "order", kinds == ref_order, site, "output order: preamble, predicate / symbol / placeholder declarations, symbol order axioms, formulas: %s" % kinds)
+    strip_idx = lambda k_: k_[:-2] if k_.endswith("_{}") else k_          # `predicate_{}` / `predicate_` (the index written as its own piece)
+    ctx.add("DECL", "order", [strip_idx(k_) for k_ in kinds] == [strip_idx(k_) for k_ in ref_order], site, "output order: preamble, predicate / symbol / placeholder declarations, symbol order axioms, formulas: %s" % kinds)
     w = {k: [s for s in seq_ if s[1] == k] for k in set(kinds)}
     first = seq_[0][4] if seq_ else None
     ctx.add("DECL", "preamble-first", first == ("write", "{}", (("place", "self.interpretation"),)), site, "the problem starts with its interpretation (the preamble)")
